@@ -59,12 +59,16 @@ func (h *H) checkGels(id string, seedIdx, m, n, nrhs int, trans blas.Transpose, 
 	} else if ea, eb, ok := gelsScaling(cls); ok {
 		a, kappa = general(rng, clsWell, m, n)
 		scaleA, scaleB = ea, eb
+		// A scaled into the subnormal range is rounded to the subnormal grid:
+		// the rounded matrix is the input, so the oracle uses it too.
+		a = ldexpM(ldexpM(a, ea), -ea)
 	} else {
 		a, kappa = general(rng, cls, m, n)
 	}
 	op := opOf(a, trans)
 	p, q := op.R, op.C
 	b := ref.FromFunc(p, nrhs, func(i, j int) float64 { return rng.Sym() })
+	b = ldexpM(ldexpM(b, scaleB), -scaleB)
 	dims := D{"m": m, "n": n, "nrhs": nrhs}
 	flags := D{"trans": int(trans)}
 	var xs []*ref.M
@@ -171,15 +175,17 @@ func gelsScaling(cls string) (ea, eb int, ok bool) {
 	case "Btiny":
 		return 0, -985, true
 	case "Bhuge":
-		return 0, 985, true
+		return 0, hugeExp, true
 	case "ABtiny":
 		return -985, -985, true
 	case "ABhuge":
-		return 985, 985, true
+		return hugeExp, hugeExp, true
+	case "ABsub": // both in the subnormal range (Dlascl scales them up)
+		return subExp, subExp, true
 	case "Atiny":
 		return -985, -400, true
 	case "Ahuge":
-		return 985, 400, true
+		return hugeExp, 400, true
 	}
 	return 0, 0, false
 }
@@ -206,7 +212,7 @@ func (h *H) planGels(add addFn) {
 	for rep := 0; rep < h.reps(); rep++ {
 		for _, mn := range [][2]int{{9, 5}, {5, 9}, {6, 6}, {40, 20}, {20, 40}} {
 			for _, trans := range []blas.Transpose{blas.NoTrans, blas.Trans, blas.ConjTrans} {
-				for _, cls := range []string{"Btiny", "Bhuge", "ABtiny", "ABhuge", "Atiny", "Ahuge"} {
+				for _, cls := range []string{"Btiny", "Bhuge", "ABtiny", "ABhuge", "Atiny", "Ahuge", "ABsub"} {
 					idx++
 					i := idx
 					m, n, trans, cls := mn[0], mn[1], trans, cls
